@@ -31,7 +31,29 @@ def canon_lookup(t: ast.AST, evs) -> Optional[Tuple[str, str]]:
     if isinstance(t, ast.Call) and isinstance(t.func, ast.Attribute) and t.func.attr == "get" and t.args:
         if len(t.args) == 1 or (isinstance(t.args[1], ast.Constant) and t.args[1].value is None):
             return show(t.func.value), show(t.args[0])
+    if isinstance(t, ast.Call) and isinstance(t.func, ast.Attribute) and t.func.attr == "setdefault" and len(t.args) == 2:
+        d = t.args[1]
+        d = expand1(d, evs) if isinstance(d, ast.Name) and d.id.startswith("$c") else d
+        if isinstance(d, ast.Call) and not d.args and not d.keywords:
+            return show(t.func.value), show(t.args[0])  # the element under the key, created empty when missing
     return None
+
+
+def through_getitem(ctx, cls_name: str, lk):
+    """`self[key]` inside class `cls_name` denotes `container[key]` when every path of its __getitem__ returns that
+    canonical lookup of its parameter."""
+    if lk is None or lk[0] != "self":
+        return lk
+    gi = ctx.p.find_fn(f"{cls_name}.__getitem__")
+    if gi is None or len(gi.params) < 2:
+        return lk
+    cont = set()
+    for p in ctx.paths(gi, inline=None, exc_edges="none"):
+        r = canon_lookup(p.value, p.events) if p.kind == "return" else None
+        if r is None or r[1] != gi.params[1]:
+            return lk
+        cont.add(r[0])
+    return (cont.pop(), lk[1]) if len(cont) == 1 else lk
 
 
 def missing_fact(p: Path, container: str, key: str) -> Optional[bool]:
